@@ -82,6 +82,7 @@ func TestGovcBounded_C16(t *testing.T) {
 			guard(fmt.Sprint(seq), func() {
 				var b Bits
 				model := map[uint]bool{}
+				var kept [][2]*Bits
 				for _, o := range seq {
 					switch o.kind {
 					case 0:
@@ -126,11 +127,19 @@ func TestGovcBounded_C16(t *testing.T) {
 						if fmt.Sprint(o2.set) != fmt.Sprint(before.set) {
 							fail("%v: the other operand was modified", seq)
 						}
+						// the operand must also stay untouched by everything done to the receiver LATER (no shared storage)
+						kept = append(kept, [2]*Bits{&o2, &before})
 					case 5:
 						c := b.Cap()
 						b.Grow(uint(o.arg))
 						if b.Cap() < c || b.Cap() <= o.arg {
 							fail("%v: Grow(%d) gives Cap %d (was %d)", seq, o.arg, b.Cap(), c)
+						}
+					}
+					for _, kp := range kept {
+						if fmt.Sprint(kp[0].set) != fmt.Sprint(kp[1].set) || kp[0].Len() != kp[1].Len() {
+							fail("%v: an operand of an earlier Diff/Intersect/Merge changed when the receiver was modified (shared storage)", seq)
+							return
 						}
 					}
 					if !check(&b, model, seq) {
